@@ -61,18 +61,24 @@ CLAIMED["C06"] = dict(
 )
 
 CLAIMED["C01"] = dict(
-    text="Kernel-checked facts about all 252 entries of the regenerated table (decide +kernel over the whole table): the model of init() "
-         "re-derives every 16-symbol template and every operand stub; every stub addresses a contiguous field (bit i of the value on bit "
-         "shift+i); base opcode, field shift/width, operand class and operand order of every mnemonic equal the independent ISA table "
-         "(Spec/Isa.lean), synonyms and push/pop/ret/call through the instruction they stand for; canonical encodings are pairwise "
-         "disjoint. Tie: every mnemonic x every operand-form combination assembled by the real code, compared word for word with the "
-         "character-level model of get_opcode/compile_insn and decoded by the executable Lean Spec decoder (operation, operands, order, "
-         "values, length).",
+    text="(1) Kernel-checked facts about all 252 entries of the regenerated table (decide +kernel over the whole table): the model of init() "
+         "re-derives every 16-symbol template and every operand stub; every stub addresses a contiguous field; base opcode, field "
+         "shift/width, operand class and operand order of every mnemonic equal the independent ISA table (Spec/Isa.lean), synonyms and "
+         "push/pop/ret/call through the instruction they stand for; canonical encodings are pairwise disjoint. (2) For ALL operand "
+         "values: get_opcode's character substitution is arithmetic - for every entry and any values the word read from the substituted "
+         "template is base + sum of (value mod 2^width) * 2^shift over the entry's fields (getOpcode_numeric: general lemmas about "
+         "binary digit lists, writes at distinct positions and the bits of a two's-complement value, plus a value-free wiring check of "
+         "every entry, wiring_ok_all), and therefore it is the ISA's encoding of that mnemonic (opcode_word_is_isa_encoding). (3) "
+         "Thorough tier: the independent ISA decoder inverts that encoding at the opcode word for every canonical instruction and every "
+         "combination of field values - complete evaluation of 60 k words (Deep/C01Decode: fields_read_back, "
+         "decoder_finds_the_instruction). Tie: every mnemonic x every operand-form combination assembled by the real code, compared "
+         "word for word with the character-level model of get_opcode/compile_insn and decoded by the executable Lean Spec decoder "
+         "(operation, operands, order, values, length).",
     design_ref="DESIGN.md §5 C01",
-    technique="Lean 4 theorems (decide +kernel over the complete regenerated opcode table against an independent ISA table) + exhaustive-by-form model/implementation correspondence + Spec decoder",
-    note=NOTE + "Spec/Isa.lean is hand-written from the DEC handbooks (non-DEC mnemonics adopted from the pinned implementation). The general "
-         "lemma 'character substitution = base + sum of shifted fields' and decode(encode)=id for all values are stage 2 (see DESIGN.md); "
-         "until then that step is covered by the exhaustive correspondence and the executed decoder, not by a theorem.",
+    technique="Lean 4 theorems (decide +kernel over the complete regenerated opcode table against an independent ISA table; induction over digit lists and bit positions for the substitution lemma) + exhaustive-by-form model/implementation correspondence + Spec decoder",
+    note=NOTE + "Spec/Isa.lean is hand-written from the DEC handbooks (non-DEC mnemonics adopted from the pinned implementation). Proved for the "
+         "opcode word; which operand class and which field value an operand's syntax denotes (operand classification, extension words) is "
+         "the modelled encodeRM/encodeStub compared exhaustively by form with the code, and decoded by the executed decoder - not a theorem.",
 )
 
 CLAIMED["C13"] = dict(
@@ -298,7 +304,10 @@ CLAIMED["C08"] = dict(
          "outcome is unreachable - proved compositionally (loud_pure, loud_err, loud_bind, loud_mapM, loud_err_abort) and for get_as_int "
          "in both flavours, register numbers, every CPU operand form of the register-mode field, register and accumulator fields, "
          "the report loop of offset/immediate fields, and the directives .byte .word implicit-list .blkb .blkw .align .ascii "
-         "(loud_getAsIntM ... loud_asciiImpl); the lazy evaluator reports every undefined name and never gives a value to 'a = a' or "
+         "(loud_getAsIntM ... loud_asciiImpl); and for the whole instruction encoder: for every entry of the regenerated table, any "
+         "number of operands of the classes its stubs expect, at any address, compileInsn ends in words or in an abort preceded by an "
+         "error report, never in the internal-error outcome - get_opcode cannot fail by C01.getOpcode_numeric (loud_encodeStub, "
+         "loud_encodeOperands, encodeOperands_shape, loud_compileInsn); the lazy evaluator reports every undefined name and never gives a value to 'a = a' or "
          "'a = a + k' at any fuel (undefined_reports, self_reference_no_value, self_increment_no_value); in the report machinery an "
          "error or critical report always turns the run into a failure and warnings never do (error_report_fails, "
          "critical_report_fails, warning_report_passes). Tie and search: grammar G - every mnemonic and directive, every operand "
